@@ -1,3 +1,26 @@
--- C07 shares the C06 driver (`drv_c06`); this target only has to exist and link.
+import QmcModel.Proto
+import QmcModel.IsingHam
 import QmcModel.Worldline
-def main : IO Unit := IO.println "use drv_c06"
+import QmcModel.Tempering
+open Qmc Qmc.Proto
+
+/-- C07 driver for the swap-guard witness (finding F25); every other C07 mode uses `drv_c06`.
+Input: `swapwit <call> <ham of a> <ham of b>` (Ising tokens `I!nvars!edges!Γ!h`).
+Output: `can:<0|1> can_rev:<0|1> nbonds:<na>,<nb>` — the guard `QmcIsingGraph::can_swap_managers`
+as modelled in `QmcModel/Tempering.lean` (`canSwapIsing`, both directions) and the number of bond
+types of each sampler in this property's model (`IsingSpec.ham.nbonds`). -/
+def toIsingH (s : IsingSpec) : Tempering.IsingH :=
+  { edges := s.edges.map (fun e => ([e.1, e.2.1], e.2.2)), gamma := s.gamma, h := s.h, nvars := s.nvars }
+
+def step (toks : List String) : String :=
+  match toks with
+  | ["swapwit", _call, ta, tb] =>
+    match parseIsing ta, parseIsing tb with
+    | some a, some b =>
+      let c1 := Tempering.canSwapIsing (toIsingH a) (toIsingH b)
+      let c2 := Tempering.canSwapIsing (toIsingH b) (toIsingH a)
+      s!"can:{showBool c1} can_rev:{showBool c2} nbonds:{a.ham.nbonds},{b.ham.nbonds}"
+    | _, _ => "bad-ham"
+  | _ => "bad-op"
+
+def main : IO Unit := run step
